@@ -26,7 +26,7 @@ Definition unalias (t : term) : term :=
 Definition plain_term (t : term) : bool :=
   match t with
   | TQuery _ | TSetOp _ _ _ _ _ _ | TTable _ _ _ | TAliased _ _ | TStar _ _ | TInterval _ | TRawStr _
-  | TCreate _ _ _ _ _ _ _ _ _ _ | TDrop _ _ => false
+  | TCreate _ _ _ _ _ _ _ _ _ _ | TDrop _ _ | TLoad _ _ => false
   | _ => true
   end.
 
